@@ -487,7 +487,7 @@ def _d6(chk, fb):
         for nn in walk(f.body):
             if nn["k"] == "DeclStmt":
                 for d in nn["decls"]:
-                    if d.get("init") is not None and d["ty"] == "double":
+                    if d.get("init") is not None and d["ty"] in ("double", "const double"):
                         run = (d, render(d["init"]))
         if run is None:
             chk.unknown("D6", f.key, "start", f.loc(), "running value not found")
